@@ -280,7 +280,8 @@ func c17Tokenizer(c *fw.Ctx, i int64) {
 func c17WordChars(c *fw.Ctx, i int64) {
 	nOps := int64(28 * 2)
 	a, b := int(i/nOps)%int(nOps), int(i%nOps)
-	which := int(i / (nOps * nOps)) // 0 word, 1 whitespace
+	mode := int(i / (nOps * nOps)) // 0 word, 1 whitespace (both cleared first); 2, 3: the same on top of the states' default ranges
+	which, onDefaults := mode%2, mode >= 2
 	mk := func(k int) (rune, rune, bool) {
 		o := c17Ops[k%28]
 		return o.start, o.end, k/28 == 0
@@ -288,8 +289,16 @@ func c17WordChars(c *fw.Ctx, i int64) {
 	var ivs []c17Interval
 	ws := generic.NewGenericWordState()
 	ss := generic.NewGenericWhitespaceState()
-	ws.ClearWordChars()
-	ss.ClearWhitespaceChars()
+	var defaults []c17Interval
+	if !onDefaults {
+		ws.ClearWordChars()
+		ss.ClearWhitespaceChars()
+	} else if which == 0 {
+		defaults = []c17Interval{{'a', 'z', 0}, {'A', 'Z', 0}, {'0', '9', 0}, {'-', '-', 0}, {'_', '_', 0}, {0xc0, 0xff, 0}, {0x100, 0xfffe, 0}}
+	} else {
+		defaults = []c17Interval{{0, ' ', 0}}
+	}
+	ivs = append(ivs, defaults...)
 	for _, k := range []int{a, b} {
 		s, e, en := mk(k)
 		if which == 0 {
@@ -307,34 +316,68 @@ func c17WordChars(c *fw.Ctx, i int64) {
 		if p == 0 {
 			continue
 		}
-		text := string([]rune{'q', p, '!'})
-		var tok *tokenizers.Token
-		pv := fw.Try(func() {
-			sc := rio.NewStringScanner(text)
-			if which == 0 {
-				tok = ws.NextToken(sc, nil)
-			} else {
-				tok = ss.NextToken(sc, nil)
-			}
-		})
-		want := ""
-		for _, ch := range text {
-			if c17ModelLookup(ivs, ch) != 0 {
-				break
-			}
-			want += string(ch)
+		if onDefaults && p >= 0xffff {
+			continue // whether the default word range ends at U+FFFE or U+FFFF is not pinned
 		}
-		if pv != nil || tok == nil || tok.Value() != want {
-			got := "<nil>"
-			if tok != nil {
-				got = tok.Value()
+		for ti, text := range []string{string([]rune{'q', p, '!'}), string([]rune{p, 'q', ' ', p}), string([]rune{' ', p, 'q'})} {
+			var tok *tokenizers.Token
+			pv := fw.Try(func() {
+				sc := rio.NewStringScanner(text)
+				if which == 0 {
+					tok = ws.NextToken(sc, nil)
+				} else {
+					tok = ss.NextToken(sc, nil)
+				}
+			})
+			want := ""
+			for _, ch := range text {
+				if c17ModelLookup(ivs, ch) != 0 {
+					break
+				}
+				want += string(ch)
 			}
-			name := []string{"SetWordChars", "SetWhitespaceChars"}[which]
-			side := "below-0x100"
-			if p >= 0x100 {
-				side = "above-0xFF"
+			// a second, untouched state of the same kind keeps its default ranges whatever was toggled on the first
+			if onDefaults && ti > 0 {
+				var tok2 *tokenizers.Token
+				pv2 := fw.Try(func() {
+					sc := rio.NewStringScanner(text)
+					if which == 0 {
+						tok2 = generic.NewGenericWordState().NextToken(sc, nil)
+					} else {
+						tok2 = generic.NewGenericWhitespaceState().NextToken(sc, nil)
+					}
+				})
+				want2 := ""
+				for _, ch := range text {
+					if c17ModelLookup(defaults, ch) != 0 {
+						break
+					}
+					want2 += string(ch)
+				}
+				if pv2 != nil || tok2 == nil || tok2.Value() != want2 {
+					c.Violation("range-toggle-reaches-another-instance", "%s %v then %v on one state: an untouched NEW state of that kind reads %q from %q, its default ranges say %q (panic=%v)", []string{"SetWordChars", "SetWhitespaceChars"}[which], ivs[len(ivs)-2], ivs[len(ivs)-1], func() string {
+						if tok2 == nil {
+							return "<nil>"
+						}
+						return tok2.Value()
+					}(), text, want2, pv2)
+				}
 			}
-			c.Violation("range-toggle-"+side, "%s %v then %v: token over %q is %q, want %q (panic=%v)", name, ivs[0], ivs[1], text, got, want, pv)
+			if pv != nil || tok == nil || tok.Value() != want {
+				got := "<nil>"
+				if tok != nil {
+					got = tok.Value()
+				}
+				name := []string{"SetWordChars", "SetWhitespaceChars"}[which]
+				side := "below-0x100"
+				if p >= 0x100 {
+					side = "above-0xFF"
+				}
+				if onDefaults {
+					side += "-on-default-ranges"
+				}
+				c.Violation("range-toggle-"+side, "%s %v then %v (cleared first: %v): token over %q is %q, want %q (panic=%v)", name, ivs[len(ivs)-2], ivs[len(ivs)-1], !onDefaults, text, got, want, pv)
+			}
 		}
 	}
 	c.Eval(1)
@@ -346,7 +389,7 @@ func init() {
 		ID:    "C17",
 		Level: "model_checking",
 		Rule: "all histories of AddInterval/AddDefaultInterval/Clear over the boundary endpoints x {A,B,nil} up to the depth bound, each replayed on a fresh CharReferenceMap and compared probe by probe (17 probes: endpoints and neighbours) with an interval-list model by reference identity; " +
-			"plus an explicit-state BFS with the probe vector as state key; plus derived checks through a real tokenizer's dispatch table and the word/whitespace states' range toggles; every history is non-trivial except the empty one",
+			"plus an explicit-state BFS with the probe vector as state key; plus derived checks through a real tokenizer's dispatch table and the word/whitespace states' range toggles (after Clear and on top of the default ranges, three probe texts, and an untouched second state must keep its defaults); every history is non-trivial except the empty one",
 		Assume: []string{"probe-vector canonicalisation: equal probe vectors have equal futures on the probes for any implementation that answers lookups from the latest covering registration; the un-merged full enumeration does not rely on it"},
 		Spaces: func(tier string) []fw.Space {
 			depth, bfsDepth := 2, 3
@@ -368,26 +411,26 @@ func init() {
 					},
 					Repr: func(i int64) string { return "[" + c17HistStr(seqByIndex(k, i)) + "]" }},
 				{Name: "high-range-triples", N: int64(len(c17HighOps())) * int64(len(c17HighOps())) * int64(len(c17HighOps())), Run: func(c *fw.Ctx, i int64) {
-						ho := c17HighOps()
-						n := int64(len(ho))
-						c17CheckHistory(c, []int{ho[i/(n*n)], ho[i/n%n], ho[i%n]})
-						c.Nontrivial()
-					},
+					ho := c17HighOps()
+					n := int64(len(ho))
+					c17CheckHistory(c, []int{ho[i/(n*n)], ho[i/n%n], ho[i%n]})
+					c.Nontrivial()
+				},
 					Repr: func(i int64) string {
 						ho := c17HighOps()
 						n := int64(len(ho))
 						return "[" + c17HistStr([]int{ho[i/(n*n)], ho[i/n%n], ho[i%n]}) + "]"
 					}},
 				{Name: "pumped-histories", N: (countStrings(k, 2) - 1) * 6, Run: func(c *fw.Ctx, i int64) {
-						base := seqByIndex(k, 1+i/6)
-						n := []int{3, 8, 9, 17, 33, 65}[i%6]
-						h := []int{}
-						for len(h) < n*len(base) {
-							h = append(h, base...)
-						}
-						c17CheckHistory(c, h)
-						c.Nontrivial()
-					},
+					base := seqByIndex(k, 1+i/6)
+					n := []int{3, 8, 9, 17, 33, 65}[i%6]
+					h := []int{}
+					for len(h) < n*len(base) {
+						h = append(h, base...)
+					}
+					c17CheckHistory(c, h)
+					c.Nontrivial()
+				},
 					Repr: func(i int64) string {
 						return fmt.Sprintf("[%s] repeated %d times", c17HistStr(seqByIndex(k, 1+i/6)), []int{3, 8, 9, 17, 33, 65}[i%6])
 					}},
@@ -398,7 +441,7 @@ func init() {
 					Repr: func(i int64) string {
 						return fmt.Sprintf("SetCharacterState %s; %s (ref A=word state, B=symbol state)", c17Ops[int(i/nOps)], c17Ops[int(i%nOps)])
 					}},
-				{Name: "range-toggle", N: 2 * 56 * 56, Run: c17WordChars,
+				{Name: "range-toggle", N: 4 * 56 * 56, Run: c17WordChars,
 					Repr: func(i int64) string { return fmt.Sprintf("range-toggle#%d", i) }},
 			}
 		},
